@@ -252,6 +252,13 @@ def runOp (op : String) (a : List String) : Option String :=
     pure (match Ecdsa.sign pr nonceFuel d h with
       | some (r, s) => "ok " ++ nhx r ++ " " ++ nhx s
       | none => "err")
+  | "sign.seq", [d, hs] => do
+    -- one key, several messages in a row (the real side hands them over in one re-used buffer)
+    let d ← unnat d
+    let hl ← (hs.splitOn ",").mapM unhex
+    pure ("ok" ++ String.join (hl.map fun h => match Ecdsa.sign pr nonceFuel d h with
+      | some (r, s) => " " ++ nhx r ++ ":" ++ nhx s
+      | none => " e"))
   | "nonce", [d, h] => do
     let d ← unnat d; let h ← unhex h
     pure (match Ecdsa.nonceRFC6979 pr nonceFuel d h with | some k => "ok " ++ nhx k | none => "err")
